@@ -48,7 +48,12 @@ func AppendHandlers(ctx context.Context, info *RunInfo, handlers ...Handler) con
 	if !ok {
 		return InitCallbacks(ctx, info, handlers...)
 	}
-	return InitCallbacks(ctx, info, append(cbm.handlers, handlers...)...)
+	// copy: appending in place would write into spare capacity of the parent manager's slice,
+	// which is shared by every context derived from the same parent
+	nhs := make([]Handler, 0, len(cbm.handlers)+len(handlers))
+	nhs = append(nhs, cbm.handlers...)
+	nhs = append(nhs, handlers...)
+	return InitCallbacks(ctx, info, nhs...)
 }
 
 type Handle[T any] func(context.Context, T, *RunInfo, []Handler) (context.Context, T)
@@ -60,7 +65,10 @@ func On[T any](ctx context.Context, inOut T, handle Handle[T], timing CallbackTi
 	}
 
 	hs := make([]Handler, 0, len(mgr.handlers)+len(mgr.globalHandlers))
-	for _, handler := range append(mgr.handlers, mgr.globalHandlers...) {
+	all := make([]Handler, 0, len(mgr.handlers)+len(mgr.globalHandlers))
+	all = append(all, mgr.handlers...)
+	all = append(all, mgr.globalHandlers...)
+	for _, handler := range all {
 		timingChecker, ok_ := handler.(TimingChecker)
 		if !ok_ || timingChecker.Needed(ctx, mgr.runInfo, timing) {
 			hs = append(hs, handler)
